@@ -25,7 +25,7 @@ def variant_string(lr, kind):
     """another member of the same lexical class (never '$'-prefixed; e-mail-shaped iff kind == 'email')"""
     if kind == 'email':
         n = lr.choice([1, 2, 5, 12, 30, 63, 64, 65, 100, 180, 230])
-        return ''.join(lr.choice('abcxyz0189._-+!#') for _ in range(n)) + 'q@' + lr.choice(['x.io', 'example.org', 'a-b.c.d.museum', 'h'])
+        return ''.join(lr.choice('abcxyzABZ0189._-+!#') for _ in range(n)) + 'q@' + lr.choice(['x.io', 'example.org', 'a-b.c.d.museum', 'h', 'Example.COM'])
     n = lr.choice([0, 1, 2, 5, 20, 200, 200, 3000, 20000])
     alphabet = 'abc XYZ019"\\/{}[]:,<>&\n\t\u00e9\u4e2d\U0001F600$@.%s'
     s = ''.join(lr.choice(alphabet) for _ in range(n))
@@ -54,12 +54,14 @@ class G:
     def s_string(self, where):
         """a sensitive string of a random lexical class"""
         core = self.p.core(True)
-        k = self.r.choice(['ascii', 'ascii', 'unicode', 'astral', 'email', 'dollar_mid', 'digits', 'escapes', 'empty', 'lookalike', 'long', 'padded_email'])
+        k = self.r.choice(['ascii', 'ascii', 'unicode', 'astral', 'email', 'email_mixed', 'dollar_mid', 'digits', 'escapes', 'empty', 'lookalike', 'long', 'padded_email', 'percent'])
         self.hit('lit_' + k)
         if k == 'ascii': s = 'secret ' + core
         elif k == 'unicode': s = 'résumé ' + core + ' 中文'
         elif k == 'astral': s = '\U0001F600' + core + '\U0001F4A9'
         elif k == 'email': s = core.lower() + '@example.com'; core = core.lower()
+        elif k == 'email_mixed': s = core + '.Name@Example.COM'
+        elif k == 'percent': s = '100% ' + core + ' %s %d %%'
         elif k == 'padded_email':
             core = core.lower()
             s = self.r.choice([' %s@example.com', '%s@example.com ', '\t%s@example.com\n', ' %s@example.com  ']) % core
@@ -75,9 +77,9 @@ class G:
         self.p.sensitive.append((core, 'string', where))
         if self.lr is not None:
             import re as _re
-            v = variant_string(self.lr, 'email' if k == 'email' else 'generic')
+            v = variant_string(self.lr, 'email' if k in ('email', 'email_mixed') else 'generic')
             is_mail = lambda x: 3 <= len(x) <= 254 and _re.match(r"^[a-zA-Z0-9.!#$%&'*+/=?^_`{|}~-]+@[a-zA-Z0-9](?:[a-zA-Z0-9-]{0,61}[a-zA-Z0-9])?(?:\.[a-zA-Z0-9](?:[a-zA-Z0-9-]{0,61}[a-zA-Z0-9])?)*$", x) is not None
-            if (k == 'email') == is_mail(v): s = v
+            if (k in ('email', 'email_mixed')) == is_mail(v): s = v
         return s
 
     def s_number(self, where):
@@ -433,7 +435,7 @@ def command_line(rng, vocab=None, collide=False, depth=4, lit_rng=None, vary_num
     db, coll = (db or db0), (coll or coll0)
     placement = rng.choice(['command', 'command', 'command', 'cmd', 'originatingCommand', 'both', 'write'])
     comp = rng.choice(['COMMAND', 'COMMAND', 'QUERY', 'WRITE', 'slow'])
-    attr = {'type': 'command', 'ns': db + '.' + coll, 'appName': 'app'}
+    attr = {'type': 'command', 'ns': db + '.' + coll, 'appName': rng.choice(['app', 'app', 'C:\\Program Files\\Shop\\orders.exe', 'tool\\u0041v1', 'a/b c'])}
     verbs = []
     if placement == 'write':
         comp = 'WRITE'
@@ -474,7 +476,7 @@ def anyjson_tree(rng, vocab, depth=0, maxdepth=5):
     if depth >= maxdepth: ks = ['str', 'num', 'bool', 'null', 'emptyobj', 'emptyarr', 'dollar']
     k = rng.choice(ks)
     if k == 'str': return rng.choice(['x', '', 'a@b.co', 'héllo', '2024-01-01T00:00:00Z', 'REDACTED', '0123456789abcdef01234567', 'a"b\\c\n', '\U0001F600', '<tag>&',
-                                      '\x1b[31mred\x1b[0m', 'bell\x07', 'vt\x0b ff\x0c bs\x08', 'del\x7f', 'tag\U000e0001x', 'nbsp\u00a0 ls\u2028 ps\u2029', '\ufeffbom', 'nul\x00z'])
+                                      'C:\\dir\\file.txt', 'lit\\u0041esc', 'trail\\', '\x1b[31mred\x1b[0m', 'bell\x07', 'vt\x0b ff\x0c bs\x08', 'del\x7f', 'tag\U000e0001x', 'nbsp\u00a0 ls\u2028 ps\u2029', '\ufeffbom', 'nul\x00z'])
     if k == 'dollar': return rng.choice(['$name', '$$ROOT', '$', '$a.b', '$eq', '$limit'])
     if k == 'num': return RawNum(rng.choice(['0', '1', '-1', '1.5', '1e10', '-0', '12345678901234567890', '0.1e-7', '1E+2', '9007199254740993', '-0.0', '-0e0', '0.0', '1.0', '100e-2', '1E0', '0.10', '1e400', '-1e-400']))
     if k == 'bool': return rng.choice([True, False])
